@@ -1203,6 +1203,143 @@ def m_btree_extend(interp, path, args, ret_ty, callee):
     return outs
 
 
+# ---------------------------------------------------------------- index / hash SETS
+# a mutable set is a slot-array map with unit values (type "SymMap<.., ()>"); a set that is only read (iterated, cloned)
+# is an entry list: StructV("IndexSet<..>", [elements]) with distinct symbolic elements and a concrete length.
+def _is_entry_set(v):
+    return v.kind == "struct" and re.match(r"^(IndexSet|BTreeSet|HashSet)<", norm_ty(v.ty)) is not None
+
+
+@model(r"^<&(IndexSet|BTreeSet|HashSet)<.*> as IntoIterator>::into_iter$|^(IndexSet|BTreeSet|HashSet)::<.*>::iter$",
+       "borrowing iterator over an entry-list set")
+def m_set_iter(interp, path, args, ret_ty, callee):
+    v = deref(interp, path, args[0])
+    if not _is_entry_set(v):
+        raise Refuse("iteration over %r" % (v,))
+    return StructV("SetRefIter", list(v.fields))
+
+
+@model(r"^<(set::|btree_set::|hash_set::)?Iter<.*> as Iterator>::next$", "next element by reference")
+def m_set_iter_next(interp, path, args, ret_ty, callee):
+    from .interp import _ConstRef
+    r = args[0]
+    if r.kind != "ref" or hasattr(r, "target"):
+        raise Refuse("Iterator::next needs a reference to the iterator place")
+    it = interp.read(path, r.fid, r.local, r.projs)
+    if it.kind != "struct" or it.ty != "SetRefIter":
+        raise Refuse("Iterator::next on %r" % (it,))
+    if not it.fields:
+        return EnumV(ret_ty, 0, {0: []})
+    interp.write(path, r.fid, r.local, r.projs, StructV("SetRefIter", it.fields[1:]))
+    return EnumV(ret_ty, 1, {1: [_ConstRef("&T", it.fields[0])]})
+
+
+@model(r"^(IndexSet|BTreeSet|HashSet)::<.*>::(swap_remove|shift_remove|remove)(::<.*>)?$",
+       "true and the slot becomes free when the element is present, else false")
+def m_set_remove(interp, path, args, ret_ty, callee):
+    mref = args[0]
+    outs = []
+    found, key = _map_find(interp, path, mref, args[1])
+    for p, i in found:
+        if i is None:
+            outs.append(Outcome(p, "ret", BoolV(False)))
+            continue
+        m = _symmap(interp, p, mref)
+        old = m.fields[i]
+        fs = list(m.fields)
+        fs[i] = StructV("Slot", [old.fields[0], old.fields[1], BoolV(False)])
+        interp.write(p, mref.fid, mref.local, mref.projs, StructV(m.ty, fs))
+        outs.append(Outcome(p, "ret", BoolV(True)))
+    return outs
+
+
+@model(r"^(IndexSet|BTreeSet|HashSet)::<.*>::insert$", "false when already present, else fills a free slot and returns true")
+def m_set_insert(interp, path, args, ret_ty, callee):
+    mref = args[0]
+    outs = []
+    found, key = _map_find(interp, path, mref, args[1])
+    for p, i in found:
+        if i is not None:
+            outs.append(Outcome(p, "ret", BoolV(False)))
+            continue
+        for p2, j in _map_free_slot(interp, p, mref):
+            if j == "full":
+                outs.append(Outcome(p2, "unwind", msg="set capacity bound exceeded in insert"))
+            else:
+                _map_put(interp, p2, mref, j, key, UnitV())
+                outs.append(Outcome(p2, "ret", BoolV(True)))
+    return outs
+
+
+@model(r"^(IndexSet|BTreeSet|HashSet)::<.*>::contains(::<.*>)?$", "membership")
+def m_set_contains(interp, path, args, ret_ty, callee):
+    v = deref(interp, path, args[0])
+    key = deref(interp, path, args[1])
+    if _is_entry_set(v):
+        return BoolV(z3.Or([val_eq(e, key) for e in v.fields]) if v.fields else z3.BoolVal(False))
+    m = _symmap(interp, path, args[0])
+    hits = [z3.And(s_.fields[2].term, val_eq(s_.fields[0], key)) for s_ in m.fields]
+    return BoolV(z3.Or(hits) if hits else z3.BoolVal(False))
+
+
+@model(r"^(IndexSet|BTreeSet|HashSet|IndexMap|BTreeMap|HashMap|NonIterMap)::<.*>::(len|is_empty)$", "number of present entries")
+def m_coll_len(interp, path, args, ret_ty, callee):
+    v = deref(interp, path, args[0])
+    if v.kind == "struct" and v.ty.startswith("SymMap"):
+        n = z3.Sum([z3.If(s_.fields[2].term, 1, 0) for s_ in v.fields]) if v.fields else z3.IntVal(0)
+    elif v.kind == "struct":
+        n = z3.IntVal(len(v.fields))
+    else:
+        raise Refuse("len of %r" % (v,))
+    return IntV(n, "usize") if canon(callee).endswith("len") else BoolV(n == 0)
+
+
+@model(r"^<(IndexSet|BTreeSet|HashSet)<.*> as Extend<.*>>::extend::<.*>$", "insert every element the argument yields")
+def m_set_extend(interp, path, args, ret_ty, callee):
+    mref = args[0]
+    src = args[1]
+    if not _is_entry_set(src):
+        raise Refuse("extend with %r" % (src,))
+    outs = []
+    work = [(path, 0)]
+    while work:
+        p, i = work.pop()
+        if i == len(src.fields):
+            outs.append(Outcome(p, "ret", UnitV()))
+            continue
+        found, key = _map_find(interp, p, mref, src.fields[i])
+        for p1, slot in found:
+            if slot is not None:
+                work.append((p1, i + 1))
+                continue
+            for p2, j in _map_free_slot(interp, p1, mref):
+                if j == "full":
+                    outs.append(Outcome(p2, "unwind", msg="set capacity bound exceeded in extend"))
+                else:
+                    _map_put(interp, p2, mref, j, key, UnitV())
+                    work.append((p2, i + 1))
+    return outs
+
+
+@model(r"^(IndexSet|BTreeSet|HashSet|IndexMap|BTreeMap|HashMap|NonIterMap)::<.*>::clear$", "every slot becomes free")
+def m_coll_clear(interp, path, args, ret_ty, callee):
+    mref = args[0]
+    m = _symmap(interp, path, mref)
+    fs = [StructV("Slot", [s_.fields[0], s_.fields[1], BoolV(False)]) for s_ in m.fields]
+    interp.write(path, mref.fid, mref.local, mref.projs, StructV(m.ty, fs))
+    return UnitV()
+
+
+@model(r"^(std::)?mem::replace::<.*>$|^replace::<.*>$", "store the new value, return the old one")
+def m_mem_replace(interp, path, args, ret_ty, callee):
+    r = args[0]
+    if r.kind != "ref" or hasattr(r, "target"):
+        raise Refuse("mem::replace needs a reference to a place")
+    old = interp.read(path, r.fid, r.local, r.projs)
+    interp.write(path, r.fid, r.local, r.projs, args[1])
+    return old
+
+
 # ---------------------------------------------------------------- std blanket conversions
 @model(r"^<([A-Z]\w*) as TryFrom<(\w+)>>::try_from$",
        "std blanket `impl<T, U: Into<T>> TryFrom<U> for T` (used only when /repo defines no TryFrom<U> for T): "
